@@ -621,6 +621,35 @@ def union_spelling_collision(pytys) -> bool:
     return False
 
 
+def union_collision_roots(pytys) -> set:
+    """indexes of the roots from which a union annotation is reachable that compares == to a differently ordered union
+    reachable from some root of the group (only those roots can be served another spelling's routine)"""
+    import typing
+    import types as _types
+    per_root, orders = [], {}
+    for t in pytys:
+        anns = []
+        if not isinstance(t, str):
+            _annotations_of(t, set(), anns)
+        us = [a for a in anns if typing.get_origin(a) in (typing.Union, _types.UnionType)]
+        per_root.append(us)
+        for a in us:
+            try:
+                orders.setdefault(a, set()).add(typing.get_args(a))
+            except Exception:
+                pass
+    bad = set()
+    for i, us in enumerate(per_root):
+        for a in us:
+            try:
+                if len(orders.get(a, ())) > 1:
+                    bad.add(i)
+                    break
+            except Exception:
+                pass
+    return bad
+
+
 def _value_src(x) -> str:
     import re
     return re.sub(r"<(\w+)\.(\w+): [^>]*>", r"\1.\2", repr(x))
@@ -712,6 +741,7 @@ def repair_histories(g, agree, rng, per_group=4):
 def warm_pass(groups, same, max_fail=6):
     """returns (calls made, failures, skipped groups); a failure is a self-contained replay payload"""
     calls, fails, skipped = 0, [], 0
+    roots_skipped = 0
 
     def agree(a, b):
         if a[0] != b[0]:
@@ -723,13 +753,18 @@ def warm_pass(groups, same, max_fail=6):
         if not raw:
             continue
         import inspect
-        if "clear" not in inspect.signature(g.observe).parameters:      # a property's own Group subclass with its own observe()
+        _ps = inspect.signature(g.observe).parameters
+        if "clear" not in _ps and not any(q.kind is inspect.Parameter.VAR_KEYWORD for q in _ps.values()):      # a property's own Group subclass with its own observe()
             skipped += 1
             continue
-        if union_spelling_collision(g.pytys):
+        tainted = union_collision_roots(g.pytys) if union_spelling_collision(g.pytys) else set()
+        usable = [i for i in range(len(raw)) if raw[i][1] not in tainted]
+        if tainted:
+            roots_skipped += len(tainted)
+        if not usable:
             skipped += 1
             continue
-        order = list(range(len(raw))) + list(reversed(range(len(raw))))
+        order = usable + list(reversed(usable))
         impl.clear_caches()
         hist, bad = [], None
         for idx in order:
@@ -740,6 +775,8 @@ def warm_pass(groups, same, max_fail=6):
             if not agree(cold, warm):
                 bad = (idx, cold, warm)
                 break
+        if bad is None and tainted:
+            continue      # repair histories walk all roots of the group: only for groups without a spelling collision
         if bad is None:
             import random as _random
             c2, f2 = repair_histories(g, agree, _random.Random(len(raw) * 7919 + len(g.roots)))
@@ -778,6 +815,7 @@ def warm_pass(groups, same, max_fail=6):
         if len(fails) >= max_fail:
             break
     impl.clear_caches()
+    warm_pass.roots_skipped = roots_skipped
     return calls, fails, skipped
 
 
@@ -852,6 +890,7 @@ def warm_replay(run, groups, tag):
     run.record_corr(f"warm-replay[{tag}](every case again without clearing caches, forwards then backwards, vs its cold outcome)",
                     calls, [{k: v for k, v in f.items() if k not in ("env", "module_source")} for f in fails],
                     dist={"groups": len(groups), "groups_skipped_for_union_spelling_collision": skipped,
+                          "roots_skipped_for_union_spelling_collision": getattr(warm_pass, "roots_skipped", 0),
                           "repair_histories(fail, repair in place, call again)": getattr(repair_histories, "done", 0),
                           "repair_candidates": getattr(repair_histories, "tried", 0),
                           "seconds": round(time.time() - t0, 1)})
